@@ -97,8 +97,12 @@ def real_context(i):
 
 
 def raw(cls, name):
-    a = cls.__dict__[name]
-    return a.__func__ if isinstance(a, (staticmethod, classmethod)) else a
+    """The plain function behind cls.<name>, wherever in the MRO it is defined (a method may move to a base class)."""
+    for k in cls.__mro__:
+        if name in k.__dict__:
+            a = k.__dict__[name]
+            return a.__func__ if isinstance(a, (staticmethod, classmethod)) else a
+    raise Unsupported('contract does not fit the code any more: %s has no attribute %r' % (cls.__name__, name))
 
 
 def loop_keys(func, qual, kind=ast.While):
